@@ -37,7 +37,8 @@ class Result:
 
 
 class World:
-    """mode: 'wrapper' (git = git-ai), 'hooks' (plain git + managed hooks), 'plain' (no git-ai)."""
+    """mode: 'wrapper' (git = git-ai), 'hooks' (plain git + managed hooks), 'both' (the wrapper in a
+    repository that also has the managed hooks installed), 'plain' (no git-ai)."""
 
     def __init__(self, root, mode="wrapper", prompt_storage="default", use_simgit=False,
                  gitconfig=None, config_extra=None):
@@ -113,7 +114,7 @@ class World:
             "SIMGIT_REAL": REAL_GIT,
             "HOOKS_LOG": self.hooks_log,
         }
-        if self.mode == "hooks":
+        if self.mode in ("hooks", "both"):
             e["GIT_AI_GLOBAL_GIT_HOOKS"] = "true"
         if os.environ.get("GAISIM_PROFILE_FILE"):
             # reach measurement only (tools/coverage.sh): where a coverage-instrumented git-ai writes its counters
@@ -158,7 +159,7 @@ class World:
         self.counters["git"] += 1
         mode = mode or self.mode
         e = self.env(env)
-        if mode == "wrapper":
+        if mode in ("wrapper", "both"):
             return self._spawn([os.path.join(self.bin, "git")] + list(args), repo, e, stdin)
         return self._spawn([REAL_GIT] + list(args), repo, e, stdin)
 
@@ -172,7 +173,7 @@ class World:
         args = ["init", "-q"] + (["--bare"] if bare else [])
         r = self.raw_git(repo, *args)
         assert r.code == 0, r
-        if not bare and self.mode == "hooks":
+        if not bare and self.mode in ("hooks", "both"):
             self.ensure_hooks(repo)
         return repo
 
@@ -203,19 +204,23 @@ class World:
         payload = {"type": "human", "repo_working_dir": repo, "will_edit_filepaths": list(files)}
         return self.gitai(repo, "checkpoint", "agent-v1", "--hook-input", json.dumps(payload), env=env)
 
-    def ai_payload(self, repo, files, session, transcript=None, model="m1", tool=AGENT_NAME):
+    def ai_payload(self, repo, files, session, transcript=None, model="m1", tool=AGENT_NAME, dirty=None):
         msgs = transcript if transcript is not None else [
             {"type": "user", "text": "please edit (%s)" % session},
             {"type": "assistant", "text": "done (%s)" % session}]
-        return {"type": "ai_agent", "repo_working_dir": repo, "edited_filepaths": list(files),
-                "transcript": {"messages": msgs}, "agent_name": tool, "model": model,
-                "conversation_id": session}
+        p = {"type": "ai_agent", "repo_working_dir": repo, "edited_filepaths": list(files),
+             "transcript": {"messages": msgs}, "agent_name": tool, "model": model,
+             "conversation_id": session}
+        if dirty:
+            # unsaved editor buffers: path (absolute, as editors report it) -> buffer content
+            p["dirty_files"] = {os.path.join(repo, k): v for k, v in sorted(dirty.items())}
+        return p
 
-    def ckpt_ai(self, repo, files, session, transcript=None, model="m1", tool=AGENT_NAME, env=None):
+    def ckpt_ai(self, repo, files, session, transcript=None, model="m1", tool=AGENT_NAME, env=None, dirty=None):
         if self.mode == "plain":
             return Result(0, "", "")
         self.counters["ckpt"] += 1
-        payload = self.ai_payload(repo, files, session, transcript, model, tool)
+        payload = self.ai_payload(repo, files, session, transcript, model, tool, dirty=dirty)
         return self.gitai(repo, "checkpoint", "agent-v1", "--hook-input", json.dumps(payload), env=env)
 
     def claude_transcript_path(self, session):
